@@ -162,12 +162,67 @@ def rule_single_token(ctx):
         ctx.ok(rid, "shortcut-off-with-lz77", "with lz77 = Enabled every path returns None", nontrivial=True, fn=f)
 
 
+def rule_finalize(ctx):
+    """an entropy-coded stream that was read is finalised (ANS final-state check) on every successful exit"""
+    from ..engine import LIB_CRATES
+    from ..mirutil import find_path_edges, Defs, access_path
+    from ..facts import op_local
+    from .. import validation
+    rid = "R-FINALIZE"
+    ctx.rule(rid, "every function that owns a jxl_coding::Decoder (a local of that type, or the result of Decoder::parse kept in the "
+                  "function) and reads from it reaches Decoder::finalize on every path from the first read to a successful return; the "
+                  "two parsers that hand the decoder on inside the structure they return (MaConfig, HfPass) are exempt.  Without it a "
+                  "corrupt ANS stream (wrong final state) is accepted")
+    HANDED_ON = ("jxl_modular::ma::MaConfig", "jxl_vardct::hf_pass::HfPass")
+    n = 0
+    for f in ctx.prog.all_fns(LIB_CRATES):
+        if f.kind == "Promoted":
+            continue
+        owned = {i for i, l in enumerate(f.locals) if l[0] == "jxl_coding::Decoder" and i > f.argc}
+        if not owned:
+            continue
+        defs = Defs(f)
+        uses, fins = [], set()
+        for b, t in f.calls():
+            c = callee(t)
+            if not c or not c["fn"].startswith("jxl_coding::Decoder::") or not t[2]:
+                continue
+            a = op_local(t[2][0])
+            ap = access_path(f, defs, a) if a is not None else None
+            if not ap or ap[0] not in owned or ap[1]:
+                continue
+            m = c["fn"].split("::")[-1]
+            if m == "finalize":
+                fins.add(b)
+            elif m not in ("parse", "parse_assume_no_lz77", "clone"):
+                uses.append((b, m))
+        if not uses:
+            continue
+        if any(h in f.path for h in HANDED_ON):
+            ctx.ok(rid, "handed-on:%s" % f.path, "the decoder is stored in the parsed structure; its user finalises it", fn=f)
+            continue
+        n += 1
+        ctx.seen(f)
+        errs = validation.err_return_blocks(f)
+        p = find_path_edges(f, [uses[0][0]], lambda x: f.term(x)[0] == "ret", avoid_block=lambda x: x in fins or x in errs)
+        key = "finalize:%s" % f.path
+        if p is None and fins:
+            ctx.ok(rid, key, "%d reads, every successful exit passes finalize()" % len(uses), nontrivial=True, fn=f)
+        else:
+            ctx.bad(rid, key + "|exit-without-finalize", "%s reads from its entropy decoder and can return successfully without calling "
+                    "Decoder::finalize(): the ANS final-state check is skipped on that path, so a corrupt stream is accepted" % f.path,
+                    fn=f, path=p)
+    ctx.count(rid + ".owners", n)
+    ctx.floor(rid + ".owners", 2)
+
+
 def main(pid, tier, repo=None):
     ctx = Ctx(pid, tier, configs=("workspace",), repo=repo)
     specconst.run(ctx, pid, floor=2)
     rule_checks(ctx)
     rule_lz77_window(ctx)
     rule_single_token(ctx)
+    rule_finalize(ctx)
     ctx.not_decided("that decoding returns exactly the encoded sequence and consumes exactly the encoded bits for every distribution set "
                     "(alias table construction, two-level prefix tables, hybrid-integer expansion, RLE / single-token shortcuts): value-level")
     return ctx.finish(
